@@ -31,13 +31,8 @@ func (i *interpreter) concretizeIndex(v value, limit int64) int64 {
 	}
 	w := sx.k.width()
 	// in range?
-	var inRange sym
-	if sx.k.signed() {
-		inRange = sym{kBool, "(and (bvsge " + sx.t + " " + bvLit(0, w) + ") (bvslt " + sx.t + " " + bvLit(uint64(limit), w) + "))"}
-	} else {
-		inRange = sym{kBool, "(bvult " + sx.t + " " + bvLit(uint64(limit), w) + ")"}
-	}
-	if !i.ps.decide(inRange) {
+	inRange := indexInRange(sx, limit)
+	if !i.ps.decideV(inRange) {
 		return -1
 	}
 	for k := int64(0); k < limit-1; k++ {
@@ -46,6 +41,23 @@ func (i *interpreter) concretizeIndex(v value, limit int64) int64 {
 		}
 	}
 	return limit - 1
+}
+
+// indexInRange builds 0 <= x < limit for an index of any integer kind; a limit that does
+// not fit the index type (e.g. a uint8 index into a [256]T array) cannot be exceeded.
+func indexInRange(sx sym, limit int64) value {
+	w := sx.k.width()
+	if sx.k.signed() {
+		lower := "(bvsge " + sx.t + " " + bvLit(0, w) + ")"
+		if w < 64 && limit >= int64(1)<<uint(w-1) {
+			return sym{kBool, lower}
+		}
+		return sym{kBool, "(and " + lower + " (bvslt " + sx.t + " " + bvLit(uint64(limit), w) + "))"}
+	}
+	if w < 64 && limit >= int64(1)<<uint(w) {
+		return true
+	}
+	return sym{kBool, "(bvult " + sx.t + " " + bvLit(uint64(limit), w) + ")"}
 }
 
 func idxPanic(idx, n int64) targetPanic {
@@ -77,14 +89,8 @@ func (i *interpreter) indexAddr(x, idx value) value {
 				}
 			}
 			if allScalar {
-				w := sx.k.width()
-				var inRange sym
-				if sx.k.signed() {
-					inRange = sym{kBool, "(and (bvsge " + sx.t + " " + bvLit(0, w) + ") (bvslt " + sx.t + " " + bvLit(uint64(n), w) + "))"}
-				} else {
-					inRange = sym{kBool, "(bvult " + sx.t + " " + bvLit(uint64(n), w) + ")"}
-				}
-				if !i.ps.decide(inRange) {
+				inRange := indexInRange(sx, n)
+				if !i.ps.decideV(inRange) {
 					panic(idxPanic(-1, n))
 				}
 				return symptr{elems, sx}
